@@ -78,7 +78,7 @@ FirstMoves(i) == IF Tr.env = "tsp" THEN T!Mask(OI(i), T!Init0(OI(i))) ELSE V!Mas
 \* a stored row is a solution of instance i worth r
 Scores(i, row, r) == Feas(i, Eff(row)) /\ NearE(Obj(i, Eff(row)), r)
 BatchInsts == {Inst(bi, b) : b \in 1..Bk}
-SeenBest(i) == MaxOf({x[1] : x \in seen[i]})
+SeenBest(i) == IF seen[i] = {} THEN NegInf ELSE MaxOf({x[1] : x \in seen[i]})
 
 (* ---- C12: rollouts keep their instance ---- *)
 \* the rows rolled out for a batch are rows of ITS instances, each instance replicated equally often
